@@ -350,6 +350,14 @@ PacketOut(x, src, act) ==
                /\ pool' = [pool EXCEPT ![s] = IF Rejects(act) THEN Limbo ELSE 0]
                /\ Log("PacketOut", "PacketOut-" \o src, [xid |-> x, src |-> src, slot |-> s, act |-> act],
                       ActOuts(x, act))
+       [] src = "both" ->      \* names a live buffer AND carries data (which of the two a switch then sends is not
+                               \* modelled: only lists it must refuse, where nothing is sent either way)
+            /\ OccSlots # {} /\ Rejects(act) /\ act = BadAct
+            /\ LET s == MinOf(OccSlots) IN
+               /\ ptx' = ptx
+               /\ pool' = [pool EXCEPT ![s] = Limbo]
+               /\ Log("PacketOut", "PacketOut-" \o src, [xid |-> x, src |-> src, slot |-> s, act |-> act],
+                      ActOuts(x, act))
        [] src = "stale" ->
             /\ FreeSlots # {}
             /\ UNCHANGED <<ptx, pool>>
@@ -564,6 +572,7 @@ Step(x) ==
   \/ \E a \in PoActs : PacketOut(x, "data", a)
   \/ \E a \in (IF Thin THEN {2, BadAct} ELSE PoActs) : PacketOut(x, "live", a)
   \/ \E src \in {"stale", "bogus"} : PacketOut(x, src, 2)
+  \/ PacketOut(x, "both", BadAct)
   \/ \E c \in {"add", "addov", "mod", "del"}, f \in TFlows : FlowMod(x, c, f, "none")
   \/ \E c \in {"delall", "badcmd", "emerg", "emergto", "emergrem", "addbad"} : FlowMod(x, c, "f1", "none")
   \/ FlowMod(x, "addbad", "f1", "live")
